@@ -590,18 +590,24 @@ def _resolved(names):
     return get_names(names)
 
 
-def tree_shaped(t, nm):
+def tree_shaped(t, nm, extra=()):
     """t is a Tree object with exactly the five fields the constructors set, whose ndata holds exactly the seven columns
-    named by nm (in that order), integer columns for id / type / pid"""
+    named by nm (in that order) followed by the columns `extra`, integer columns for id / type / pid, no two sharing storage"""
     from swcgeom.core.swc_utils import get_types
     from swcgeom.core.tree import Tree
 
     if not (isinstance(t, Obj) and t.cls is Tree and set(t.fields) == {"types", "source", "comments", "names", "ndata"}):
         return False
     nd = t.fields["ndata"]
-    if not (isinstance(nd, PDict) and nd.items is not None and list(nd.items) == list(nm.cols()) and tuple(t.fields["types"]) == tuple(get_types())):
+    if not (isinstance(nd, PDict) and nd.items is not None and list(nd.items) == list(nm.cols()) + list(extra) and tuple(t.fields["types"]) == tuple(get_types())):
         return False
-    return all(type(nd.items[getattr(nm, f)]) is SArr and nd.items[getattr(nm, f)].kind == k for f, k in TKIND.items()) and len({a.uid for a in nd.items.values()}) == 7
+    return (all(type(nd.items[getattr(nm, f)]) is SArr and nd.items[getattr(nm, f)].kind == k for f, k in TKIND.items())
+            and all(type(nd.items[c]) is SArr for c in extra) and len({a.uid for a in nd.items.values()}) == len(nd.items))
+
+
+def frame_extras(df, nm):
+    """the columns of the frame that are not among the seven named ones, in the frame's order"""
+    return [c for c in df.cols if c not in nm.cols()]
 
 
 def fdf_setup(custom, int_r):
@@ -610,7 +616,7 @@ def fdf_setup(custom, int_r):
         kinds = {getattr(nm, f): k for f, k in TKIND.items()}
         if int_r:
             kinds[nm.r] = "int"  # e.g. a constant radius column built from the Python int 1
-        kinds["extra"] = "real"  # a column the names do not mention: not taken over
+        kinds["extra"] = "real"  # a column the names do not mention: taken over as it is, after the seven named ones
         df = S.dframe(kinds)
         df.frozen = True
         for a in df.cols.values():
@@ -633,16 +639,16 @@ def fdf_pre(E, v, o):
 def fdf_post(which):
     def f(E, v, o):
         t, df, nm = v["result"], o["df"], _resolved(o["names"])
-        if fdf_pre(E, o, o) is not True or not tree_shaped(t, nm):
+        if fdf_pre(E, o, o) is not True or not tree_shaped(t, nm, frame_extras(df, nm)):
             return False
-        if which == "a-Tree-with-exactly-the-seven-named-columns":
+        if which == "a-Tree-with-the-seven-named-columns-then-the-other-columns-of-the-frame":
             return True
         nd = t.fields["ndata"].items
         n = zint(df.n)
         if which == "every-column-holds-the-frame-column-of-that-name":
             conj = []
-            for fld, k in TKIND.items():
-                a, src = nd[getattr(nm, fld)], df.cols[getattr(nm, fld)]
+            for c, k in [(getattr(nm, fld), k) for fld, k in TKIND.items()] + [(c, df.cols[c].kind) for c in frame_extras(df, nm)]:
+                a, src = nd[c], df.cols[c]
                 i = z3.Int(fresh_name("i"))
                 conj += [a.nz() == n, z3.ForAll([i], z3.Implies(z3.And(0 <= i, i < n), to_z3(a.get(i), k) == to_z3(src.get(i), k)))]
             return z3.And(*conj)
@@ -656,8 +662,8 @@ def fdf_post(which):
     return f
 
 
-FDF_POSTS = ["a-Tree-with-exactly-the-seven-named-columns", "every-column-holds-the-frame-column-of-that-name", "names-source-kept-no-comments",
-             "tree-object-and-column-dict-are-new"]
+FDF_POSTS = ["a-Tree-with-the-seven-named-columns-then-the-other-columns-of-the-frame", "every-column-holds-the-frame-column-of-that-name",
+             "names-source-kept-no-comments", "tree-object-and-column-dict-are-new"]
 
 
 def fdf_result(S, fr):
@@ -667,6 +673,8 @@ def fdf_result(S, fr):
 
     df, nm = fr.vars["df"], _resolved(fr.vars["names"])
     cols = {getattr(nm, f): SArr.fresh(k, zint(df.n), name="t_" + f) for f, k in TKIND.items()}
+    for c in frame_extras(df, nm):
+        cols[c] = SArr.fresh(df.cols[c].kind, zint(df.n), name="t_" + str(c))
     return Obj(Tree, dict(types=get_types(), source=fr.vars["source"], comments=PList([]), names=nm, ndata=PDict(cols)))
 
 
@@ -679,7 +687,7 @@ def _register_fdf(R):
     # same clauses modularly through its private overlay (below).
     R.add(FDF, variants={"default names": fdf_setup(False, False), "given names": fdf_setup(True, False), "given names, integer radius column": fdf_setup(True, True),
                          "default names, integer radius column": fdf_setup(False, True)},
-          notes="frame of symbolic length with the seven named columns and one more; source a string, comments=None; dtype casts (int32 / float32) are the "
+          notes="frame of symbolic length with the seven named columns and one more (kept, after the named ones); source a string, comments=None; dtype casts (int32 / float32) are the "
                 "identity under `numpy ints do not overflow, floats are reals`", **fdf_contract())
 
 
